@@ -2,7 +2,7 @@
 # runs every seeded change against the check(s) of its property (and declared extra properties); prints one line per seed
 V="${VERIF_HOME:-/verif}"; R="${VERIF_REPO:-/repo}"
 cd "$V"
-for d in seeded/*/; do
+for d in seeded/[A-Z]*/; do
   s=$(basename $d); p=$(python3 -c "import json;print(json.load(open('$d/meta.json'))['property'])")
   extra=$(python3 -c "import json;print(' '.join(json.load(open('$d/meta.json')).get('also_checked_by',[])))")
   out=$(bin/seedtest.sh $s $p $extra 2>&1)
